@@ -415,7 +415,8 @@ class Engine:
                 raise PathTimeout()
             # CPU time of this process, not wall time: a loaded machine must not look like a hang
             old = signal.signal(signal.SIGPROF, _alarm)
-            signal.setitimer(signal.ITIMER_PROF, self.path_wall_s)
+            # repeating: an exception raised by the handler inside a __del__ / callback is swallowed by the interpreter
+            signal.setitimer(signal.ITIMER_PROF, self.path_wall_s, 2.0)
         try:
             fn(self)
         except Infeasible:
